@@ -158,6 +158,7 @@ var opaqueTypes = map[string]string{
 	"[][]byte":          "list string",
 	"etreeutils.NSContext": "nsctx",
 	"etree.pref":           "pref", // the result of el.Parent() inside an NSFindIterate handler
+	"tree.edits":           "(list nat * list node)", // edit log of an element whose children a handler removes / appends
 	"bt.handle":            "(list nat)", // builders: an element pointer = the path of the element in the tree under construction
 	"bt.doc":               "docref",
 	"bt.tree":              "node",
@@ -178,6 +179,7 @@ type callBind struct {
 	nargs int
 	typ   string // Go result type ("res:T,error" for (T, error))
 	opt   bool   // the template yields an option: None = the call panics
+	pm    bool   // the template yields a pm (a translated function of another unit): PPanic = the call panics
 	val   bool   // result is a non-nil value of a nil-able type (coerced with Some)
 	param string // using the call adds this parameter to the translated function (a value supplied from outside)
 	frozen map[int]bool // builders: the argument is an element handle; the callee receives the element as built so far
@@ -424,6 +426,7 @@ type xlat struct {
 	constPrefix string // "c_" for package saml2, "t_" for package types
 	noNow       bool   // the unit's functions do not read a clock: no [now] parameter
 	recvMut     *varInfo // the function assigns fields of its receiver: the receiver is threaded and returned beside the results
+	elMut       *elMutInfo // the function edits the children of an element parameter: the edited element is returned beside the results
 	loopDepth   int    // > 0 while the body of a loop is translated
 	elided      string // element type of the slice literal whose untyped element literal is being translated
 }
@@ -432,6 +435,9 @@ type xlat struct {
 func (x *xlat) cret(t string) string {
 	if x.recvMut != nil {
 		return "CRet (" + x.recvMut.coq + ", " + t + ")"
+	}
+	if x.elMut != nil {
+		return "CRet ((apply_edits " + x.elMut.el.coq + " " + x.elMut.edits.coq + "), " + t + ")"
 	}
 	return "CRet " + t
 }
@@ -1466,6 +1472,11 @@ func (x *xlat) externCall(n *ast.CallExpr) (ex, bool) {
 		pres = append(pres, pre{"opt", q, term})
 		term = q
 	}
+	if cb.pm {
+		q := x.freshName("r")
+		pres = append(pres, pre{"pm", q, term})
+		term = q
+	}
 	return ex{pres: pres, term: term, typ: cb.typ, valPtr: cb.val}, true
 }
 
@@ -1481,8 +1492,20 @@ func terminates(s ast.Stmt) bool {
 		return len(n.List) > 0 && terminates(n.List[len(n.List)-1])
 	case *ast.IfStmt:
 		return n.Else != nil && terminates(n.Body) && terminates(n.Else)
+	case *ast.ExprStmt:
+		return isPanicCall(n.X)
 	}
 	return false
+}
+
+// isPanicCall: the builtin panic(v)
+func isPanicCall(e ast.Expr) bool {
+	c, ok := e.(*ast.CallExpr)
+	if !ok {
+		return false
+	}
+	id, ok := c.Fun.(*ast.Ident)
+	return ok && id.Name == "panic" && id.Obj == nil && len(c.Args) == 1
 }
 
 func (x *xlat) mutVars(cur []*varInfo, id *ast.Ident, vi *varInfo) []*varInfo {
@@ -1565,6 +1588,9 @@ func (x *xlat) block(list []ast.Stmt, cur, out, loop []*varInfo, inLoop bool) st
 			inner := &ast.IfStmt{If: n.If, Cond: n.Cond, Body: n.Body, Else: n.Else}
 			return seq(x.block([]ast.Stmt{n.Init, inner}, cur, cur, loop, inLoop))
 		}
+		if t, ok := x.elemEdit(nil, n, cur, func(c []*varInfo) string { return cont(c) }); ok {
+			return t
+		}
 		c := x.expr(n.Cond)
 		if c.typ != "bool" {
 			unsup(n, "condition of type %s", c.typ)
@@ -1646,6 +1672,14 @@ func (x *xlat) block(list []ast.Stmt, cur, out, loop []*varInfo, inLoop bool) st
 		loopT := fmt.Sprintf("for_range (fun %s %s => %s) (zrange %s) %s", vi.coq, patOf(cur), body, bound.term, tupleOf(cur))
 		return wrapPres(bound.pres, seq(loopT), "CPanic")
 	case *ast.ExprStmt:
+		if isPanicCall(n.X) {
+			// panic(v): the argument is evaluated first (it can itself panic; either way the outcome is a panic)
+			x.expr(n.X.(*ast.CallExpr).Args[0])
+			return "CPanic"
+		}
+		if t, ok := x.elemEdit(n, nil, cur, cont); ok {
+			return t
+		}
 		// c.CryptBlocks(dst, src) on a cipher.BlockMode: dst := decrypted src (panics unless src is whole blocks)
 		if c, ok := n.X.(*ast.CallExpr); ok {
 			if sel, ok := c.Fun.(*ast.SelectorExpr); ok && sel.Sel.Name == "CryptBlocks" && len(c.Args) == 2 {
@@ -2301,6 +2335,101 @@ func (x *xlat) findIterate(n *ast.IfStmt, init *ast.AssignStmt, call *ast.CallEx
 	return wrapPres(pres, k, "CPanic")
 }
 
+// elemEdit: the two statements by which an NSFindIterate handler edits the element the traversal started from (a parameter
+// of the enclosing function, see elMut):
+//     START.AddChild(X)                                       append the element X as last child
+//     if START.RemoveChild(E) == nil { BODY }                 E = the element the handler was called for; etree returns nil iff
+//                                                             E is not a child of START (then BODY runs, START unchanged)
+// The edits are recorded in the edit log threaded through the traversal (NSTraverse iterates over a snapshot of the children,
+// so they do not change which elements are visited) and applied to START where the function returns.
+func (x *xlat) elemEdit(es *ast.ExprStmt, is *ast.IfStmt, cur []*varInfo, cont func([]*varInfo) string) (string, bool) {
+	if x.elMut == nil || x.clos == nil {
+		return "", false
+	}
+	isStart := func(e ast.Expr) bool {
+		id, ok := e.(*ast.Ident)
+		return ok && id.Obj != nil && id.Obj == x.clos.start && x.locals[id.Obj] == x.elMut.el
+	}
+	method := func(e ast.Expr, name string) *ast.CallExpr {
+		c, ok := e.(*ast.CallExpr)
+		if !ok || len(c.Args) != 1 {
+			return nil
+		}
+		sel, ok := c.Fun.(*ast.SelectorExpr)
+		if !ok || sel.Sel.Name != name || !isStart(sel.X) {
+			return nil
+		}
+		return c
+	}
+	ed := x.elMut.edits.coq
+	if es != nil {
+		c := method(es.X, "AddChild")
+		if c == nil {
+			return "", false
+		}
+		a := x.expr(c.Args[0])
+		if a.typ != "*etree.Element" {
+			unsup(es, "AddChild of %s", a.typ)
+		}
+		pres := append([]pre{}, a.pres...)
+		t := a.term
+		if !a.valPtr {
+			p := x.freshName("p")
+			pres = append(pres, pre{"opt", p, t}) // AddChild(nil) dereferences the token
+			t = p
+		}
+		return wrapPres(pres, fmt.Sprintf("let %s := (edit_add %s %s) in %s", ed, t, ed, cont(cur)), "CPanic"), true
+	}
+	cond, ok := is.Cond.(*ast.BinaryExpr)
+	if !ok || cond.Op != token.EQL || exprString(cond.Y) != "nil" {
+		return "", false
+	}
+	c := method(cond.X, "RemoveChild")
+	if c == nil {
+		return "", false
+	}
+	arg, ok := c.Args[0].(*ast.Ident)
+	if !ok || arg.Obj == nil || arg.Obj != x.clos.el || is.Else != nil {
+		unsup(is, "RemoveChild form")
+	}
+	q := x.freshName("q")
+	return fmt.Sprintf("match (edit_remove path %s) with None => %s | Some %s => let %s := %s in %s end",
+		ed, x.block(is.Body.List, cur, cur, nil, false), q, ed, q, cont(cur)), true
+}
+
+// elMutInfo: a *etree.Element parameter that a handler edits in place; the edit log is a synthetic mutable local
+type elMutInfo struct {
+	el    *varInfo
+	edits *varInfo
+}
+
+// findElMut: the (single) *etree.Element parameter P with a call P.RemoveChild(..) or P.AddChild(..) in the body
+func (x *xlat) findElMut(fd *ast.FuncDecl) *ast.Object {
+	var found *ast.Object
+	params := map[*ast.Object]bool{}
+	for _, f := range fd.Type.Params.List {
+		if typeStr(f.Type) == "*etree.Element" {
+			for _, id := range f.Names {
+				params[id.Obj] = true
+			}
+		}
+	}
+	ast.Inspect(fd.Body, func(m ast.Node) bool {
+		if c, ok := m.(*ast.CallExpr); ok {
+			if sel, ok := c.Fun.(*ast.SelectorExpr); ok && (sel.Sel.Name == "RemoveChild" || sel.Sel.Name == "AddChild") {
+				if id, ok := sel.X.(*ast.Ident); ok && id.Obj != nil && params[id.Obj] {
+					if found != nil && found != id.Obj {
+						unsup(c, "two element parameters are edited")
+					}
+					found = id.Obj
+				}
+			}
+		}
+		return true
+	})
+	return found
+}
+
 // builderStmt: X.CreateAttr(k, v) / X.SetText(v) / X.CreateElement(tag).SetText(v) / doc.SetRoot(E) as statements that update
 // the tree under construction (or the document variable)
 func (x *xlat) builderStmt(n ast.Stmt, c *ast.CallExpr, cur []*varInfo, cont func([]*varInfo) string) (string, bool) {
@@ -2556,6 +2685,8 @@ func (x *xlat) function(out *bytes.Buffer, name string) {
 		curUnit = x.recvCur
 		x.closures = nil
 		x.recvMut = nil
+		x.elMut = nil
+		elMutObj := x.findElMut(fd)
 		x.btInit = false
 		x.bt = nil
 		if x.build {
@@ -2603,6 +2734,13 @@ func (x *xlat) function(out *bytes.Buffer, name string) {
 			params = append(params, fmt.Sprintf("(%s : %s)", vi.coq, ct))
 			if recvMutated {
 				x.recvMut = vi
+			}
+			if id.Obj != nil && id.Obj == elMutObj {
+				if !valPtr || x.recvMut != nil {
+					unsup(t, "edited element parameter %s", id.Name)
+				}
+				x.used["v_edits"] = true
+				x.elMut = &elMutInfo{el: vi, edits: &varInfo{coq: "v_edits", typ: "tree.edits"}}
 			}
 			if assigned {
 				cur0 = append(cur0, vi)
@@ -2667,7 +2805,14 @@ func (x *xlat) function(out *bytes.Buffer, name string) {
 			cur0 = append(cur0, x.recvMut)
 			rt = "(" + recvModel[name] + " * " + rt + ")"
 		}
+		if x.elMut != nil {
+			cur0 = append(cur0, x.elMut.edits)
+			rt = "(node * " + rt + ")"
+		}
 		body := x.block(fd.Body.List, cur0, nil, nil, false)
+		if x.elMut != nil {
+			body = "let v_edits := edits_empty in " + body
+		}
 		if x.bt != nil {
 			body = "let bt := (Text EmptyString) in " + body
 		}
@@ -2690,7 +2835,7 @@ func (x *xlat) function(out *bytes.Buffer, name string) {
 			shortFile(p.Filename), p.Line, strings.ReplaceAll(name, ".", "_"), strings.Join(params, " "), rt, body)
 	}()
 	out.WriteString(text)
-	if kind != "" && x.recvMut == nil && !strings.HasPrefix(text, "(* UNSUPPORTED") {
+	if kind != "" && x.recvMut == nil && x.elMut == nil && !strings.HasPrefix(text, "(* UNSUPPORTED") {
 		x.done[name] = kind
 	}
 }
